@@ -12,10 +12,18 @@
   Proof shape (the same four times): (1) the model function equals its own parametrised form at the generated
   curve operations (`*_eq_G`, by `rfl` at a GENERIC modulus, where nothing can be evaluated); (2) the generated core
   equals the parametrised model for ARBITRARY callees (`*_core_eq`: the loop states differ only by a
-  re-arrangement of the tuple, `foldl_rel` / `foldlM_map`); (3) instantiate.  Keeping the callees abstract in (2) is
+  re-arrangement of the tuple, `foldl_map_eq` / `foldlM_map`); (3) instantiate.  Keeping the callees abstract in (2) is
   what keeps the kernel from trying to evaluate curve arithmetic when it reduces `match linefunc .. with | (n, d) => ..`.
+
+  Robustness: the statements never mention the generated loop body `miller_loop_loop0` (its parameter list is "the
+  locals the body reads, in order of first use" and changes when the source hoists / inlines a loop invariant): the
+  one-iteration lemma is proved inside `*_core_eq` for whatever function the generated fold applies, by `tie_close`
+  (case analysis on both bodies) rather than by a fixed rewriting script.
 -/
 import PyEcc.Gen.ExtraMiller
+import PyEcc.Props.TieRobC
+
+set_option linter.unusedSimpArgs false
 
 namespace PyEcc.Tie
 open PyEcc PyEcc.Gen.Consts
@@ -27,6 +35,13 @@ theorem foldl_rel {α₁ α₂ β : Type} (r : α₂ → α₁ → Prop) {g₁ :
   induction l generalizing i₁ i₂ with
   | nil => exact hi
   | cons a l ih => exact ih (H _ _ _ hi)
+
+/-- two folds of the same list whose states correspond under `φ` (the step function `g₂` is left to unification) -/
+theorem foldl_map_eq {α₁ α₂ β : Type} (φ : α₁ → α₂) {g₁ : α₁ → β → α₁} {g₂ : α₂ → β → α₂} (i : α₁) (l : List β)
+    (H : ∀ x y, g₂ (φ x) y = φ (g₁ x y)) : List.foldl g₂ (φ i) l = φ (List.foldl g₁ i l) := by
+  induction l generalizing i with
+  | nil => rfl
+  | cons a l ih => simp only [List.foldl_cons, H, ih]
 
 section optBls
 variable {p : Nat} {mc2 mc12 : List Int}
@@ -78,31 +93,20 @@ variable (lf : (OBls12 × OBls12 × OBls12) → (OBls12 × OBls12 × OBls12) →
   (dbl : (OBls2 × OBls2 × OBls2) → OBls2 × OBls2 × OBls2) (add : (OBls2 × OBls2 × OBls2) → (OBls2 × OBls2 × OBls2) → OBls2 × OBls2 × OBls2)
   (tw : (OBls2 × OBls2 × OBls2) → OBls12 × OBls12 × OBls12) (cast : (Fq blsP × Fq blsP × Fq blsP) → OBls12 × OBls12 × OBls12)
 
-/-- one iteration: generated loop body vs the model's step, states related by `φBls` -/
-theorem optBls_step (castP twistQ : OBls12 × OBls12 × OBls12) (Q : OBls2 × OBls2 × OBls2)
-    (s : (OBls12 × OBls12) × (OBls2 × OBls2 × OBls2) × (OBls12 × OBls12 × OBls12)) (v : Int) :
-    Gen.ExtraMiller.OptBls.miller_loop_loop0 lf castP dbl tw twistQ add Q (φBls s) v =
-      φBls (optBlsStepG lf dbl add tw castP twistQ Q s v) := by
-  rcases s with ⟨⟨fn, fd⟩, R, tR⟩
-  unfold Gen.ExtraMiller.OptBls.miller_loop_loop0 optBlsStepG φBls
-  by_cases h1 : v = 1
-  · simp only [h1, if_true]
-  · simp only [if_neg h1]
-
-/-- the generated core equals the parametrised model for arbitrary callees, digit list and exponent -/
+/-- the generated core equals the parametrised model for arbitrary callees, digit list and exponent.  (The one-iteration
+    lemma -- generated loop body vs the model's step, states related by `φBls` -- is the side goal of `foldl_map_eq`.) -/
 theorem optBls_core_eq (L : List Int) (E : Nat) (Q : OBls2 × OBls2 × OBls2) (P : Fq blsP × Fq blsP × Fq blsP) (fe : Bool) :
     Gen.ExtraMiller.OptBls.miller_loop_core Q P fe lf dbl add tw cast L E =
       optBlsMillerG lf dbl add tw cast L (if fe then some E else none) Q P := by
   unfold Gen.ExtraMiller.OptBls.miller_loop_core optBlsMillerG
-  rw [if_neg (by simp)]
-  have h : List.foldl (Gen.ExtraMiller.OptBls.miller_loop_loop0 lf (cast P) dbl tw (tw Q) add Q)
-      (φBls (((1 : OBls12), (1 : OBls12)), Q, tw Q)) L =
-      φBls (List.foldl (optBlsStepG lf dbl add tw (cast P) (tw Q) Q) (((1 : OBls12), (1 : OBls12)), Q, tw Q) L) :=
-    foldl_rel (r := fun a b => a = φBls b) rfl
-      (fun x₂ x₁ v h => by subst h; exact optBls_step lf dbl add tw (cast P) (tw Q) Q x₁ v)
-  simp only [φBls] at h
-  simp only [h]
-  cases fe <;> rfl
+  simp only [or_self, if_false]
+  rw [foldl_map_eq φBls (g₁ := optBlsStepG lf dbl add tw (cast P) (tw Q) Q) (((1 : OBls12), (1 : OBls12)), Q, tw Q)]
+  · generalize List.foldl (optBlsStepG lf dbl add tw _ _ Q) _ L = s
+    rcases s with ⟨⟨fn, fd⟩, R, tR⟩
+    cases fe <;> tie_close
+  · rintro ⟨⟨fn, fd⟩, R, tR⟩ v
+    unfold Gen.ExtraMiller.OptBls.miller_loop_loop0 optBlsStepG
+    tie_close
 end coreOptBls
 
 /-- optimized bls12_381 `miller_loop(Q, P, final_exponentiate)` as translated from the source (the
@@ -171,31 +175,21 @@ variable (lf : (OBn12 × OBn12 × OBn12) → (OBn12 × OBn12 × OBn12) → (OBn1
   (add : (OBn12 × OBn12 × OBn12) → (OBn12 × OBn12 × OBn12) → OBn12 × OBn12 × OBn12)
   (neg : (OBn12 × OBn12 × OBn12) → OBn12 × OBn12 × OBn12)
 
-/-- one iteration: generated loop body vs the model's step, states related by `φBn` -/
-theorem optBn_step (Q P : OBn12 × OBn12 × OBn12) (s : (OBn12 × OBn12) × (OBn12 × OBn12 × OBn12)) (v : Int) :
-    Gen.ExtraMiller.OptBn.miller_loop_loop0 lf P dbl Q add neg (φBn s) v = φBn (optBnStepG lf dbl add neg Q P s v) := by
-  rcases s with ⟨⟨fn, fd⟩, R⟩
-  unfold Gen.ExtraMiller.OptBn.miller_loop_loop0 optBnStepG φBn
-  by_cases h1 : v = 1
-  · simp only [h1, if_true]
-  · by_cases h2 : v = -1
-    · simp only [h2, show ((-1 : Int) = 1) = False from eq_false (by decide), if_false, if_true]
-    · simp only [if_neg h1, if_neg h2]
-
-/-- the generated core equals the parametrised model for arbitrary callees, digit list and exponent -/
+/-- the generated core equals the parametrised model for arbitrary callees, digit list and exponent (one-iteration lemma
+    inline, as for bls12_381) -/
 theorem optBn_core_eq (L : List Int) (E : Nat) (Q P : OBn12 × OBn12 × OBn12) (fe : Bool) :
     Gen.ExtraMiller.OptBn.miller_loop_core Q P fe lf dbl add neg L E =
       optBnMillerG lf dbl add neg L (if fe then some E else none) Q P := by
   unfold Gen.ExtraMiller.OptBn.miller_loop_core optBnMillerG
-  rw [if_neg (by simp)]
-  have h : List.foldl (Gen.ExtraMiller.OptBn.miller_loop_loop0 lf P dbl Q add neg)
-      (φBn (((1 : OBn12), (1 : OBn12)), Q)) L =
-      φBn (List.foldl (optBnStepG lf dbl add neg Q P) (((1 : OBn12), (1 : OBn12)), Q) L) :=
-    foldl_rel (r := fun a b => a = φBn b) rfl
-      (fun x₂ x₁ v h => by subst h; exact optBn_step lf dbl add neg Q P x₁ v)
-  simp only [φBn] at h
-  simp only [h]
-  cases fe <;> rfl
+  simp only [or_self, if_false]
+  rw [foldl_map_eq φBn (g₁ := optBnStepG lf dbl add neg Q P) (((1 : OBn12), (1 : OBn12)), Q)]
+  · generalize List.foldl (optBnStepG lf dbl add neg Q P) _ L = s
+    rcases s with ⟨⟨fn, fd⟩, R⟩
+    rcases Q with ⟨qx, qy, qz⟩
+    cases fe <;> tie_close
+  · rintro ⟨⟨fn, fd⟩, R⟩ v
+    unfold Gen.ExtraMiller.OptBn.miller_loop_loop0 optBnStepG
+    tie_close
 end coreOptBn
 
 /-- optimized bn128 `miller_loop(Q, P, final_exponentiate)` as translated from the source (signed-digit loop with
@@ -253,48 +247,36 @@ section coreRefBls
 abbrev PtBls := Option (RBls12 × RBls12)
 variable (lf : PtBls → PtBls → PtBls → Except PyErr RBls12) (dbl : PtBls → PtBls) (add : PtBls → PtBls → Except PyErr PtBls)
 
-/-- one iteration of the reference loop: generated body vs `refMillerStep` (state `(R, f)` vs `(f, R)`) -/
-theorem refBls_step (Q P : PtBls) (f : RBls12) (R : PtBls) (i : Nat) :
-    Gen.ExtraMiller.RefBls.miller_loop_loop0 lf P dbl add Q (R, f) i =
-      (refMillerStep ⟨lf, dbl, add⟩ bls12_381_ate_loop_count Q P (f, R) i).map (fun s => (s.2, s.1)) := by
-  unfold Gen.ExtraMiller.RefBls.miller_loop_loop0 refMillerStep
-  simp only [bind, Except.bind, pure, Except.pure, Except.map]
-  cases lf R R P with
-  | error e => rfl
-  | ok l =>
-    simp only []
-    by_cases hb : bitSet bls12_381_ate_loop_count i = true
-    · have hc : bls12_381_ate_loop_count &&& 2 ^ i ≠ 0 := (and_two_pow_ne_zero_iff _ _).mpr hb
-      simp only [hb, hc, if_true, ne_eq, not_false_eq_true]
-      cases lf (dbl R) Q P with
-      | error e => rfl
-      | ok l2 =>
-        simp only []
-        cases add (dbl R) Q <;> rfl
-    · have hc : ¬ (bls12_381_ate_loop_count &&& 2 ^ i ≠ 0) := fun h => hb ((and_two_pow_ne_zero_iff _ _).mp h)
-      simp only [hb, hc, if_false]
-      rfl
-
-/-- the generated core equals `refMillerLoop` (no Frobenius step) for arbitrary callees, loop bound and exponent -/
+/-- the generated core equals `refMillerLoop` (no Frobenius step) for arbitrary callees, loop bound and exponent.  The
+    one-iteration lemma (generated loop body vs `refMillerStep`, state `(R, f)` vs `(f, R)`) is the side goal of `foldlM_map`:
+    it is proved for whatever step function the generated `foldlM` applies. -/
 theorem refBls_core_eq (logAte E : Nat) (Q P : PtBls) :
     Gen.ExtraMiller.RefBls.miller_loop_core Q P lf dbl add ((List.range (logAte + 1)).reverse) E =
       refMillerLoop ⟨lf, dbl, add⟩ bls12_381_ate_loop_count logAte false E Q P := by
   unfold Gen.ExtraMiller.RefBls.miller_loop_core refMillerLoop downTo
-  have hfold := foldlM_map (fun s : RBls12 × PtBls => (s.2, s.1))
-    (g₁ := refMillerStep ⟨lf, dbl, add⟩ bls12_381_ate_loop_count Q P)
-    (g₂ := Gen.ExtraMiller.RefBls.miller_loop_loop0 lf P dbl add Q)
-    (fun x y => refBls_step lf dbl add Q P x.1 x.2 y) ((List.range (logAte + 1)).reverse) ((1 : RBls12), Q)
-  simp only [] at hfold
   cases Q with
   | none => rfl
   | some q =>
     cases P with
     | none => rfl
     | some pp =>
-      simp only [bind, Except.bind, pure, Except.pure, hfold, Option.isNone, Bool.or_self, reduceCtorEq, or_self, if_false,
-        Bool.false_eq_true]
-      cases List.foldlM (refMillerStep ⟨lf, dbl, add⟩ bls12_381_ate_loop_count (some q) (some pp)) ((1 : RBls12), some q)
-        (List.range (logAte + 1)).reverse <;> rfl
+      simp only [bind, Except.bind, pure, Except.pure, Option.isNone, Bool.or_self, reduceCtorEq, or_self, if_false,
+        Bool.false_eq_true, if_true]
+      rw [foldlM_map (fun s : RBls12 × PtBls => (s.2, s.1))
+        (g₁ := refMillerStep ⟨lf, dbl, add⟩ bls12_381_ate_loop_count (some q) (some pp))
+        (l := (List.range (logAte + 1)).reverse) (i := ((1 : RBls12), (some q)))]
+      · cases List.foldlM (refMillerStep ⟨lf, dbl, add⟩ bls12_381_ate_loop_count (some q) (some pp)) ((1 : RBls12), (some q))
+          (List.range (logAte + 1)).reverse with
+        | error e => rfl
+        | ok s =>
+          rcases s with ⟨f, R⟩
+          simp only [Except.map]
+          repeat' tie_step
+      · rintro ⟨f, R⟩ i
+        unfold Gen.ExtraMiller.RefBls.miller_loop_loop0 refMillerStep
+        simp only [bind, Except.bind, pure, Except.pure, and_two_pow_ne_zero_iff]
+        repeat' tie_step
+        all_goals tie_leaf [Except.map]
 end coreRefBls
 
 /-- reference bls12_381 `miller_loop(Q, P)` as translated from the source (`None` guard, the
@@ -309,38 +291,13 @@ section coreRefBn
 abbrev PtBn := Option (RBn12 × RBn12)
 variable (lf : PtBn → PtBn → PtBn → Except PyErr RBn12) (dbl : PtBn → PtBn) (add : PtBn → PtBn → Except PyErr PtBn)
 
-/-- one iteration of the reference loop: generated body vs `refMillerStep` (state `(R, f)` vs `(f, R)`) -/
-theorem refBn_step (Q P : PtBn) (f : RBn12) (R : PtBn) (i : Nat) :
-    Gen.ExtraMiller.RefBn.miller_loop_loop0 lf P dbl add Q (R, f) i =
-      (refMillerStep ⟨lf, dbl, add⟩ bn128_ate_loop_count Q P (f, R) i).map (fun s => (s.2, s.1)) := by
-  unfold Gen.ExtraMiller.RefBn.miller_loop_loop0 refMillerStep
-  simp only [bind, Except.bind, pure, Except.pure, Except.map]
-  cases lf R R P with
-  | error e => rfl
-  | ok l =>
-    simp only []
-    by_cases hb : bitSet bn128_ate_loop_count i = true
-    · have hc : bn128_ate_loop_count &&& 2 ^ i ≠ 0 := (and_two_pow_ne_zero_iff _ _).mpr hb
-      simp only [hb, hc, if_true, ne_eq, not_false_eq_true]
-      cases lf (dbl R) Q P with
-      | error e => rfl
-      | ok l2 =>
-        simp only []
-        cases add (dbl R) Q <;> rfl
-    · have hc : ¬ (bn128_ate_loop_count &&& 2 ^ i ≠ 0) := fun h => hb ((and_two_pow_ne_zero_iff _ _).mp h)
-      simp only [hb, hc, if_false]
-      rfl
-
-/-- the generated core equals `refMillerLoop` (with the Frobenius steps) for arbitrary callees, loop bound and exponent -/
+/-- the generated core equals `refMillerLoop` (with the Frobenius steps) for arbitrary callees, loop bound and exponent.  The
+    one-iteration lemma (generated loop body vs `refMillerStep`, state `(R, f)` vs `(f, R)`) is the side goal of `foldlM_map`:
+    it is proved for whatever step function the generated `foldlM` applies. -/
 theorem refBn_core_eq (logAte E : Nat) (Q P : PtBn) :
     Gen.ExtraMiller.RefBn.miller_loop_core Q P lf dbl add ((List.range (logAte + 1)).reverse) E =
       refMillerLoop ⟨lf, dbl, add⟩ bn128_ate_loop_count logAte true E Q P := by
   unfold Gen.ExtraMiller.RefBn.miller_loop_core refMillerLoop downTo
-  have hfold := foldlM_map (fun s : RBn12 × PtBn => (s.2, s.1))
-    (g₁ := refMillerStep ⟨lf, dbl, add⟩ bn128_ate_loop_count Q P)
-    (g₂ := Gen.ExtraMiller.RefBn.miller_loop_loop0 lf P dbl add Q)
-    (fun x y => refBn_step lf dbl add Q P x.1 x.2 y) ((List.range (logAte + 1)).reverse) ((1 : RBn12), Q)
-  simp only [] at hfold
   cases Q with
   | none => rfl
   | some q =>
@@ -348,14 +305,23 @@ theorem refBn_core_eq (logAte E : Nat) (Q P : PtBn) :
     | none => rfl
     | some pp =>
       rcases q with ⟨qx, qy⟩
-      simp only [bind, Except.bind, pure, Except.pure, hfold, Option.isNone, Bool.or_self, reduceCtorEq, or_self, if_false,
+      simp only [bind, Except.bind, pure, Except.pure, Option.isNone, Bool.or_self, reduceCtorEq, or_self, if_false,
         Bool.false_eq_true, if_true]
-      cases List.foldlM (refMillerStep ⟨lf, dbl, add⟩ bn128_ate_loop_count (some (qx, qy)) (some pp)) ((1 : RBn12), some (qx, qy))
-        (List.range (logAte + 1)).reverse with
-      | error e => rfl
-      | ok s =>
-        rcases s with ⟨f, R⟩
-        simp only [Except.map]
+      rw [foldlM_map (fun s : RBn12 × PtBn => (s.2, s.1))
+        (g₁ := refMillerStep ⟨lf, dbl, add⟩ bn128_ate_loop_count (some (qx, qy)) (some pp))
+        (l := (List.range (logAte + 1)).reverse) (i := ((1 : RBn12), (some (qx, qy))))]
+      · cases List.foldlM (refMillerStep ⟨lf, dbl, add⟩ bn128_ate_loop_count (some (qx, qy)) (some pp)) ((1 : RBn12), (some (qx, qy)))
+          (List.range (logAte + 1)).reverse with
+        | error e => rfl
+        | ok s =>
+          rcases s with ⟨f, R⟩
+          simp only [Except.map]
+          repeat' tie_step
+      · rintro ⟨f, R⟩ i
+        unfold Gen.ExtraMiller.RefBn.miller_loop_loop0 refMillerStep
+        simp only [bind, Except.bind, pure, Except.pure, and_two_pow_ne_zero_iff]
+        repeat' tie_step
+        all_goals tie_leaf [Except.map]
 end coreRefBn
 
 /-- reference bn128 `miller_loop(Q, P)` as translated from the source (as for bls12_381, plus the two Frobenius
